@@ -16,6 +16,7 @@ type JSONCfg struct {
 	Extra     bool // add unknown members to struct objects
 	PresentPc int  // probability (percent) that a struct field is mentioned (default 60)
 	MaxLen    int  // max array / map length (default 3)
+	AnyLen    bool // Go arrays and [N]byte may get fewer or more elements than N (UnmarshalArrayFromAnyLength)
 	// Rec, if set, is called with the RFC 6901 pointer and description of every
 	// value position generated (used to pick injection points).
 	Rec func(ptr string, d *Desc, start, end int)
@@ -209,7 +210,11 @@ func (g *jsonGen) val0(d *Desc, ptr string, budget int) {
 		b := rapid.SliceOfN(rapid.Byte(), 0, 5).Draw(t, "bytes")
 		sb.WriteString(`"` + base64.StdEncoding.EncodeToString(b) + `"`)
 	case d.K == "bytearr":
-		b := rapid.SliceOfN(rapid.Byte(), d.Len, d.Len).Draw(t, "bytearr")
+		n := d.Len
+		if g.jc.AnyLen && rapid.Bool().Draw(t, "balen?") {
+			n = rapid.IntRange(0, d.Len+2).Draw(t, "balen")
+		}
+		b := rapid.SliceOfN(rapid.Byte(), n, n).Draw(t, "bytearr")
 		sb.WriteString(`"` + base64.StdEncoding.EncodeToString(b) + `"`)
 	case d.K == "time":
 		sec := rapid.Int64Range(0, 4102444800).Draw(t, "tsec")
@@ -243,7 +248,11 @@ func (g *jsonGen) val0(d *Desc, ptr string, budget int) {
 		sb.WriteByte(']')
 	case d.K == "array":
 		sb.WriteByte('[')
-		for i := 0; i < d.Len; i++ {
+		alen := d.Len
+		if g.jc.AnyLen && rapid.Bool().Draw(t, "alen?") {
+			alen = rapid.IntRange(0, d.Len+2).Draw(t, "alen")
+		}
+		for i := 0; i < alen; i++ {
 			if i > 0 {
 				sb.WriteByte(',')
 			}
